@@ -127,7 +127,13 @@ func (s *server) handleSigRequest(ctx context.Context, pID peer.ID, m proto.Mess
 		return nil, false, errors.Wrap(err, "dedup")
 	}
 
-	sig, err := s.signFunc(req.GetId(), reqMessageHash)
+	// Sign for this peer only, so it cannot pass the signature on to another peer.
+	signHash, err := senderHash(pID, reqMessageHash)
+	if err != nil {
+		return nil, false, errors.Wrap(err, "sender hash")
+	}
+
+	sig, err := s.signFunc(req.GetId(), signHash)
 	if err != nil {
 		return nil, false, errors.Wrap(err, "sign hash")
 	}
@@ -141,7 +147,7 @@ func (s *server) handleMessage(ctx context.Context, pID peer.ID, m proto.Message
 		return nil, false, errors.New("invalid message type")
 	}
 
-	if err := s.verifyFunc(msg.GetId(), msg.GetMessage(), msg.GetSignatures()); err != nil {
+	if err := s.verifyFunc(pID, msg.GetId(), msg.GetMessage(), msg.GetSignatures()); err != nil {
 		return nil, false, errors.Wrap(err, "verify signatures")
 	}
 
